@@ -256,15 +256,22 @@ func runResJoin(c *core.Ctx) {
 				// the drain: a go statement whose literal ranges over the slice, receiving from each element
 				var goAtom ast.Node
 				var drainLit *ast.FuncLit
-				var drainRS *ast.RangeStmt
+				var drainRS ast.Stmt
+				var drainBody *ast.BlockStmt
+				isSlice := func(x ast.Expr) bool { return an.ObjOf(info, x) == slice }
 				for _, x := range g.FindAtoms(func(x ast.Node) bool { _, ok := x.(*ast.GoStmt); return ok }) {
 					lit, ok := an.Unparen(x.(*ast.GoStmt).Call.Fun).(*ast.FuncLit)
 					if !ok {
 						continue
 					}
 					ast.Inspect(lit.Body, func(m ast.Node) bool {
-						if rs, ok := m.(*ast.RangeStmt); ok && an.ObjOf(info, rs.X) == slice && rs.Value != nil {
-							goAtom, drainLit, drainRS = x, lit, rs
+						if inner, isLit := m.(*ast.FuncLit); isLit && inner != lit {
+							return false
+						}
+						if st, ok := m.(ast.Stmt); ok {
+							if body, _, ok := perElementLoop(info, st, isSlice); ok && body != nil {
+								goAtom, drainLit, drainRS, drainBody = x, lit, st, body
+							}
 						}
 						return true
 					})
@@ -274,17 +281,34 @@ func runResJoin(c *core.Ctx) {
 					continue
 				}
 				lg := e.GraphOfLit(fn.Pkg, drainLit)
-				val := an.ObjOf(info, drainRS.Value)
+				var sliceExpr ast.Expr
+				ast.Inspect(drainRS, func(m ast.Node) bool {
+					if ex, isEx := m.(ast.Expr); isEx && sliceExpr == nil && isSlice(ex) {
+						sliceExpr = ex
+					}
+					return sliceExpr == nil
+				})
 				isRecv := func(x ast.Node) bool {
 					u, ok := x.(*ast.UnaryExpr)
-					return ok && u.Op == token.ARROW && an.ObjOf(info, u.X) == val
+					return ok && u.Op == token.ARROW && sliceExpr != nil && isLoopElement(info, drainRS, sliceExpr, u.X)
 				}
-				bb := lg.BlockOfStmt(drainRS, cfg.KindRangeBody)
-				if bb == nil || !lg.PassesWithin(bb, drainRS.Body.Pos(), drainRS.Body.End(), isRecv) {
+				kind := cfg.KindForBody
+				if _, isRange := drainRS.(*ast.RangeStmt); isRange {
+					kind = cfg.KindRangeBody
+				}
+				bb := lg.BlockOfStmt(drainRS, kind)
+				if bb == nil || !lg.PassesWithin(bb, drainBody.Pos(), drainBody.End(), isRecv) {
 					c.Bad(key, drainRS.Pos(), "the drain loop does not receive from every collected channel on every path of its body")
 					continue
 				}
-				if okp, _ := lg.MustPass(nil, func(x ast.Node) bool { return x == ast.Node(drainRS.X) }, nil); !okp {
+				// the loop header is reached on every path of the goroutine
+				reached := false
+				if p := lg.Search(an.Query{ToExit: true, Avoid: func(x ast.Node) bool {
+					return x.Pos() >= drainRS.Pos() && x.End() <= drainRS.End()
+				}}); !p.Found {
+					reached = true
+				}
+				if !reached {
 					c.Bad(key, drainRS.Pos(), "the goroutine can finish without running the drain loop")
 					continue
 				}
@@ -362,10 +386,10 @@ func panicsOnNonNilParam(e *Env, h *an.Func) bool {
 // errorSticks checks, inside the drain loop of a PreCommit forwarder, that the variable holding the
 // reported error keeps a non-nil value: every assignment from a receive is either followed, on its
 // non-nil outcome, by leaving the loop, or is itself guarded by a non-nil test of the received value.
-func errorSticks(lg *an.Graph, info *types.Info, rs *ast.RangeStmt, isRecv func(ast.Node) bool) string {
+func errorSticks(lg *an.Graph, info *types.Info, rs ast.Stmt, isRecv func(ast.Node) bool) string {
 	found := false
 	bad := ""
-	ast.Inspect(rs.Body, func(m ast.Node) bool {
+	ast.Inspect(loopBodyOf(rs), func(m ast.Node) bool {
 		as, ok := m.(*ast.AssignStmt)
 		if !ok || len(as.Lhs) != 1 || len(as.Rhs) != 1 {
 			return true
